@@ -43,7 +43,8 @@ MANIFEST = dict(
          "rounded float stream), plus an independent reference interpreter bms_denote (unordered lines, overlay, LN head = closest "
          "earlier object in time, integration of 60000/bpm) evaluated on every chart the implementation returns. Proved for all "
          "inputs: base-36/hex id codecs inverse, 3-digit measure codec, position arithmetic (pair i of k at beat 4i/k, equal to the "
-         "oracle's position), header retention of the header reader; layout obligations (injective, header channels = 02/03/08, "
+         "oracle's position), header retention (whole file: a header line #K v anywhere in the text, not overwritten later, is retained "
+         "as title/artist/level/LNOBJ/misc whenever the read succeeds); layout obligations (injective, header channels = 02/03/08, "
          "columns < 18) by vm_compute on the regenerated tables. The whole-file statement is refuted by two machine-checked "
          "witnesses (out-of-order LN lines; tempo object off the pairwise 1/96 grid) = KNOWN findings, and is checked under the "
          "guards by correspondence + oracle rather than proved (bms_read_denotes is open).",
